@@ -184,3 +184,32 @@ func superviseRunRange(mode, layer string, pass []string, lo, hi, workers int, o
 	sort.Slice(recs, func(i, j int) bool { return recs[i].hid < recs[j].hid })
 	return recs, crashes, unattributed
 }
+
+// panicSite: the first frame below the panic machinery in a stack trace taken inside a deferred recover — "function (file:line)"
+func panicSite(stack string) string {
+	lines := strings.Split(stack, "\n")
+	seenPanic := false
+	for i := 0; i+1 < len(lines); i++ {
+		l := lines[i]
+		if strings.HasPrefix(l, "panic(") || strings.HasPrefix(l, "runtime.gopanic") {
+			seenPanic = true
+			continue
+		}
+		if !seenPanic || strings.HasPrefix(l, "\t") || strings.HasPrefix(l, "runtime.") {
+			continue
+		}
+		fn := l
+		if k := strings.LastIndex(fn, "("); k > 0 {
+			fn = fn[:k]
+		}
+		loc := strings.TrimSpace(lines[i+1])
+		if k := strings.Index(loc, " +0x"); k > 0 {
+			loc = loc[:k]
+		}
+		if k := strings.LastIndex(loc, "/"); k >= 0 {
+			loc = loc[k+1:]
+		}
+		return fn + " (" + loc + ")"
+	}
+	return "?"
+}
